@@ -396,6 +396,127 @@ theorem default_internal_pipeline_has_no_client_policy :
 
 end ChainDispatch
 
+/-! ## Pooled chains keep to their pipeline -/
+
+section PoolsSec
+open SdnsVerif.Model.Chain
+
+/-- Every chain at rest in pipeline `p`'s pool, and every chain drawn from it, is
+bound to `p`'s own handler list. -/
+def PoolsOK (s : Pools) : Prop :=
+  (∀ p b, b ∈ poolOf s.pools p → b = p) ∧ (∀ e ∈ s.out, e.2 = e.1)
+
+theorem poolOf_setPool (ps : List (Nat × List Nat)) (p q : Nat) (l : List Nat) :
+    poolOf (setPool ps p l) q = if q = p then l else poolOf ps q := by
+  unfold poolOf setPool
+  by_cases h : q = p
+  · subst h; simp
+  · have hne : (p == q) = false := by simp; exact fun e => h e.symm
+    simp only [List.find?_cons, hne, h, if_false]
+    congr 1
+    induction ps with
+    | nil => rfl
+    | cons e es ih =>
+      simp only [List.filter_cons]
+      by_cases he : e.1 = p
+      · have h1 : (e.1 == q) = false := by simp [he]; exact fun e' => h e'.symm
+        simp [he, List.find?_cons, h1, ih]
+        subst he
+        simpa [List.find?_cons, h1] using ih
+      · have h2 : (!(e.1 == p)) = true := by simp [he]
+        simp only [h2, if_true, List.find?_cons]
+        cases hq : (e.1 == q) with
+        | true => rfl
+        | false => exact ih
+
+theorem poolsOK_step (s : Pools) (op : PoolOp) (hp : paired op = true) (h : PoolsOK s) :
+    PoolsOK (s.step op) := by
+  obtain ⟨h1, h2⟩ := h
+  cases op with
+  | releaseTo i q => simp [paired] at hp
+  | acquire p =>
+    simp only [Pools.step]
+    cases hq : poolOf s.pools p with
+    | nil =>
+      refine ⟨h1, ?_⟩
+      intro e he
+      rcases List.mem_append.mp he with he | he
+      · exact h2 e he
+      · simp at he; subst he; rfl
+    | cons b rest =>
+      have hb : b = p := h1 p b (by rw [hq]; exact List.mem_cons_self)
+      refine ⟨?_, ?_⟩
+      · intro q c hc
+        rw [poolOf_setPool] at hc
+        by_cases hqp : q = p
+        · simp only [hqp, if_true] at hc
+          subst hqp
+          exact h1 q c (by rw [hq]; exact List.mem_cons_of_mem _ hc)
+        · simp only [hqp, if_false] at hc
+          exact h1 q c hc
+      · intro e he
+        rcases List.mem_append.mp he with he | he
+        · exact h2 e he
+        · simp at he; subst he; exact hb
+  | release i =>
+    simp only [Pools.step]
+    cases hg : s.out[i]? with
+    | none => exact ⟨h1, h2⟩
+    | some e =>
+      obtain ⟨p, b⟩ := e
+      have hmem : (p, b) ∈ s.out := List.mem_of_getElem? hg
+      have hb : b = p := h2 (p, b) hmem
+      refine ⟨?_, ?_⟩
+      · intro q c hc
+        rw [poolOf_setPool] at hc
+        by_cases hqp : q = p
+        · simp only [hqp, if_true] at hc
+          rcases List.mem_cons.mp hc with hc | hc
+          · rw [hc, hb, hqp]
+          · rw [hqp]; exact h1 p c hc
+        · simp only [hqp, if_false] at hc
+          exact h1 q c hc
+      · intro e he
+        exact h2 e (List.mem_of_mem_eraseIdx he)
+
+/-- **A pooled chain runs the handlers of the pipeline it was drawn from** — for
+every history of draws and returns in which each chain goes back to the pool it
+came from, in any order and with any nesting (a client query holding its chain
+while the cache's alias chase and the resolver's name-server lookups draw and
+return theirs). In particular a client is never served on a chain bound to an
+internal pipeline, which holds no access list
+(`internal_pipelines_hold_no_client_policy`). -/
+theorem pooled_chain_runs_own_pipeline (ops : List PoolOp) (hp : ∀ op ∈ ops, paired op = true) :
+    PoolsOK (Pools.empty.run ops) := by
+  have gen : ∀ (s : Pools), PoolsOK s → (∀ op ∈ ops, paired op = true) → PoolsOK (s.run ops) := by
+    induction ops with
+    | nil => intro s hs _; exact hs
+    | cons op rest ih =>
+      intro s hs hall
+      have h1 := poolsOK_step s op (hall op List.mem_cons_self) hs
+      exact ih (fun op' hm => hp op' (List.mem_cons_of_mem _ hm)) (s.step op) h1
+        (fun op' hm => hall op' (List.mem_cons_of_mem _ hm))
+  exact gen Pools.empty ⟨by intro p b hb; simp [Pools.empty, poolOf] at hb, by intro e he; simp [Pools.empty] at he⟩ hp
+
+/-- The discipline holds in the current tree (regenerated go/ast facts): every
+function that returns a chain returns it to the pipeline it drew it from, no
+pipeline method reaches into another pipeline's pool, and the pool's constructor
+binds a new chain to the pipeline's own handler list. -/
+theorem pool_discipline_in_tree :
+    SdnsVerif.Gen.C17.pool_unpaired = [] ∧ SdnsVerif.Gen.C17.pool_foreign_access = [] ∧
+    SdnsVerif.Gen.C17.pool_new_binds_own = true := by
+  decide
+
+-- non-vacuity: a client query (pipeline 0) holding its chain across two nested internal
+-- sub-queries (pipeline 1), then a second client: all four draws run their own pipeline.
+example : (Pools.empty.run [.acquire 0, .acquire 1, .release 1, .acquire 1, .release 1, .release 0, .acquire 0]).out
+    = [(0, 0)] := by decide
+-- why the discipline matters (the shape of a seeded change): an internal chain handed to
+-- the root pool is drawn by the next client, which is then served WITHOUT the access list.
+example : (Pools.empty.run [.acquire 1, .releaseTo 0 0, .acquire 0]).out = [(0, 1)] := by decide
+
+end PoolsSec
+
 /-! ## Who counts as internal -/
 
 section Ident
